@@ -25,12 +25,15 @@
     `Parse.L2_exit`                       second loop (every `d[i]`, `d[i+1]` is in range; variant `l - i`)
   * `Parse.G_ret1`, `Parse.G_12`, `Parse.G_ret2`, `Parse.G_fin`   between the loops and the tail
 
-  Main results (hypotheses: `hred` = `reduce128` returns, `hsz : d.size < 2^63`):
+  Main results (only hypothesis: `hsz : d.size < 2^63`; the call of `reduce128` is made with a non-zero
+  significand and returns by `D128.Proofs.Total.reduce128_total`):
+  * `Parse.triple_pre`, `Parse.reduce128_call`   a pure precondition may be assumed; the call returns
   * `Parse.parseNumber_triple`     ⦃True⦄ Gen.parseNumber g d neg sep ⦃⇓ r => .ok r = Parse.model g d.toList neg sep⦄
                                    (by `mvcgen`; total correctness: termination and no panic)
   * `Parse.parseNumber_eq_model`   `Gen.parseNumber g d neg sep = Parse.model g d.toList neg sep`
 -/
 import D128.Gen.Scan
+import D128.Proofs.TotalReduce192
 import Std.Tactic.Do
 
 open Std.Do
@@ -137,9 +140,9 @@ def loop1 (sep : Bool) : List UInt8 → S1 → Option (S1 × List UInt8)
 def toS2 (s : S1) : S2 :=
   ⟨s.nfrac, 0, s.caneof, s.cansep, s.cansgn, false, s.sawdig, s.sawdot, s.sawexp, ⟨s.sig64, 0⟩, 0⟩
 
-/-- effect of a digit of the exponent -/
+/-- effect of a digit of the exponent (the accumulator saturates from `2^58` on) -/
 def expDigit (c : UInt8) (e : Int64) : Int64 :=
-  if e < (1000000000 : Int64) then (e * (10 : Int64)) + (Go.conv (c - (48 : UInt8)) : Int64) else e
+  if e < (288230376151711744 : Int64) then (e * (10 : Int64)) + (Go.conv (c - (48 : UInt8)) : Int64) else e
 
 /-- one iteration of the second loop on the character `c` for everything except the two-digit
     step; `none` = `parseNumberSyntaxError` -/
@@ -774,18 +777,37 @@ theorem finish_red (g : Globals) (neg : Bool) (s : S2) (h : ¬ ((!s.caneof) || (
     ⦃⌜True⌝⦄ Go.bget d i ⦃⇓ r => ⌜d[i.toNat]'h1 = r⌝⦄ :=
   triple_of_ok (bget_eq d i h0 h1) rfl
 
+/-- a pure precondition of a triple may be assumed -/
+theorem triple_pre {α : Type} {f : Go.GoM α} {P : Prop} {Q : PostCond α PS}
+    (h : P → ⦃⌜True⌝⦄ f ⦃Q⦄) : ⦃⌜P⌝⦄ f ⦃Q⦄ := by
+  unfold Triple at *
+  exact SPred.pure_elim' h
+
+/-- the call of `reduce128` that `parseNumber` makes (non-zero significand) returns -/
+theorem reduce128_call (rm : UInt8) (neg : Bool) (sig : U128) (exp : Int16) (trunc : Int8)
+    (hz : ¬ ((sig.w0 ||| sig.w1) == (0 : UInt64)) = true) :
+    ∃ r, Gen.RoundingMode.reduce128 rm neg sig exp trunc = .ok r := by
+  apply D128.Proofs.Total.reduce128_total
+  left
+  intro h0
+  apply hz
+  rw [beq_iff_eq, UInt64.or_eq_zero_iff]
+  have h1 := sig.w0.toNat_lt
+  unfold U128.toNat at h0
+  constructor <;> apply UInt64.toNat_inj.mp <;> simp <;> omega
+
 set_option maxHeartbeats 400000 in
-theorem parseNumber_triple (g : Globals) (d : Go.Bytes) (neg sep : Bool)
-    (hred : ∀ rm neg sig exp trunc, ∃ r, Gen.RoundingMode.reduce128 rm neg sig exp trunc = .ok r)
-    (hsz : d.size < 2^63) :
+theorem parseNumber_triple (g : Globals) (d : Go.Bytes) (neg sep : Bool) (hsz : d.size < 2^63) :
    ⦃⌜True⌝⦄ Gen.parseNumber g d neg sep ⦃⇓ r => ⌜.ok r = model g d.toList neg sep⌝⦄ := by
   have hspec : ∀ rm neg sig exp trunc,
-      ⦃⌜True⌝⦄ Gen.RoundingMode.reduce128 rm neg sig exp trunc
+      ⦃⌜∃ r, Gen.RoundingMode.reduce128 rm neg sig exp trunc = .ok r⌝⦄
+      Gen.RoundingMode.reduce128 rm neg sig exp trunc
       ⦃⇓ r => ⌜Gen.RoundingMode.reduce128 rm neg sig exp trunc = .ok r⌝⦄ := by
     intro rm neg sig exp trunc
-    obtain ⟨r, hr⟩ := hred rm neg sig exp trunc
+    apply triple_pre
+    intro ⟨r, hr⟩
     exact triple_of_ok hr hr
-  mvcgen [Gen.parseNumber, hspec]
+  mvcgen [Gen.parseNumber, hspec, -D128.Proofs.Total.reduce128_total_triple]
   case inv1 => exact var1 d
   case inv2 => exact inv1 d sep
   case inv3 => exact var2 d
@@ -857,30 +879,29 @@ theorem parseNumber_triple (g : Globals) (d : Go.Bytes) (neg sep : Bool)
   case vc46 =>
     rw [G_fin g neg (by assumption) (by assumption)]
     exact (finish_zero g neg _ (by assumption) (by assumption)).symm
-  case vc47 | vc51 =>
+  case vc47 | vc52 =>
     rw [G_fin g neg (by assumption) (by assumption)]
     refine (finish_big g neg _ (by assumption) (by assumption) _ ?_ (by assumption)).symm
     first | rw [if_pos (by assumption)] | rw [if_neg (by assumption)]
     rfl
-  case vc48 | vc52 =>
+  case vc48 | vc53 =>
     rw [G_fin g neg (by assumption) (by assumption)]
     refine (finish_small g neg _ (by assumption) (by assumption) _ ?_ (by assumption) (by assumption)).symm
     first | rw [if_pos (by assumption)] | rw [if_neg (by assumption)]
     rfl
-  case vc49 h12 hr | vc50 h12 hr | vc53 h12 hr | vc54 h12 hr =>
+  case vc49 | vc54 => exact reduce128_call _ _ _ _ _ (by assumption)
+  case vc50 h12 hr | vc51 h12 hr | vc55 h12 hr | vc56 h12 hr =>
     rw [G_fin g neg (by assumption) (by assumption)]
     rw [finish_red g neg _ (by assumption) (by assumption) _ ?_ (by assumption) (by assumption) _ hr]
     · first | rw [if_pos h12] | rw [if_neg h12]
     · first | rw [if_pos (by assumption)] | rw [if_neg (by assumption)]
       rfl
-  case vc55 => simp [inv2]
-  case vc56 => simp [inv1]
+  case vc57 => simp [inv2]
+  case vc58 => simp [inv1]
 
-theorem parseNumber_eq_model (g : Globals) (d : Go.Bytes) (neg sep : Bool)
-    (hred : ∀ rm neg sig exp trunc, ∃ r, Gen.RoundingMode.reduce128 rm neg sig exp trunc = .ok r)
-    (hsz : d.size < 2^63) :
+theorem parseNumber_eq_model (g : Globals) (d : Go.Bytes) (neg sep : Bool) (hsz : d.size < 2^63) :
     Gen.parseNumber g d neg sep = model g d.toList neg sep := by
-  obtain ⟨r, h1, h2⟩ := ok_of_triple (parseNumber_triple g d neg sep hred hsz)
+  obtain ⟨r, h1, h2⟩ := ok_of_triple (parseNumber_triple g d neg sep hsz)
   rw [h1, h2]
 
 
